@@ -281,7 +281,7 @@ func parseFuncCall(step *Step, call *callFuncDef, funcs []*funcDef) error {
 	calledFuncDef := &funcDef{}
 
 	for _, funcDef := range funcs {
-		if funcDef.Name == call.Function {
+		if funcDef != nil && funcDef.Name == call.Function {
 			calledFuncDef = funcDef
 			break
 		}
